@@ -188,6 +188,10 @@ def run(ctx):
     ctx.ob("R4", "open#replays", app.id in P.reach([wc]) and P.fn("WalRecovery::recover").id in P.reach([wc]),
            what="GrafeoDB::with_config does not reach WalRecovery::recover + apply_wal_records", where=wc.loc())
 
+    # ---- R4b whatever the log writer accepts, replay accepts (shared with C06-R4)
+    from .c06 import reader_cap_rule
+    reader_cap_rule(ctx, P, "R4")
+
     # ---- R5 id allocators restored
     for fnm, cell in (("create_node_with_id", "next_node_id"), ("create_edge_with_id", "next_edge_id")):
         f = P.fn("LpgStore::" + fnm)
